@@ -110,6 +110,14 @@ class FakeFrame:
         return not self.__eq__(other)
 
 
+def _is_positioned_syntax_error(exception):
+    """ Whether this is a SyntaxError that says where: a student's own ``raise SyntaxError(...)``
+    may carry no position, or anything at all in the position fields. The class is asked of the
+    type, an instance can refuse every attribute access (``__getattribute__``). """
+    return (issubclass(type(exception), SyntaxError) and isinstance(exception.lineno, int)
+            and not isinstance(exception.lineno, bool) and exception.lineno >= 1)
+
+
 class ExpandedTraceback:
     """
     Class for reformatting tracebacks to have more pertinent information.
@@ -141,7 +149,7 @@ class ExpandedTraceback:
         # Report whole-file numbering while a section (with a line offset) is active
         self.line_number = located_frame[1] + line_offsets.get(located_frame[0], 0)
         # A syntax error found while compiling has no frame in the student's file
-        if isinstance(exception, SyntaxError) and not student_frames and exception.lineno is not None:
+        if _is_positioned_syntax_error(exception) and not student_frames:
             self.line_number = exception.lineno + line_offsets.get(exception.filename, 0)
         self.original_code_lines = original_code_lines
         self.student_files = student_files
@@ -173,8 +181,8 @@ class ExpandedTraceback:
         # https://docs.python.org/3/library/traceback.html#traceback.print_exception
         # Not every SyntaxError has a position (e.g., source code with null bytes, or
         # a student's own ``raise SyntaxError("...")``); those get no extra frame.
-        if isinstance(self.exception, SyntaxError) and self.exception.lineno is not None:
-            offset = self.exception.offset if self.exception.offset is not None else 1
+        if _is_positioned_syntax_error(self.exception):
+            offset = self.exception.offset if isinstance(self.exception.offset, int) else 1
             if IS_AT_LEAST_PYTHON_310 and not IS_SKULPT:
                 end_lineno = self.exception.end_lineno
                 end_offset = offset if self.exception.end_offset not in {None, 0} else offset
